@@ -10,7 +10,10 @@
 (* A behaviour starts with a group ThresholdGroupManager::create_group     *)
 (* returned (every configuration of the bounds it accepts, provided the    *)
 (* group is quorate: threshold <= active participants) and applies the     *)
-(* mutating methods with every argument of the bounds.  The queries are    *)
+(* mutating methods with every argument of the bounds (mode "group"), or   *)
+(* fills the audit log of one such group (mode "audit": add_audit_entry    *)
+(* touches nothing but the log, and nothing else touches the log - see     *)
+(* Frames).  The queries are                                               *)
 (* pure: the invariants quantify over EVERY argument of check_permission / *)
 (* get_participants_by_role in every reachable state.  `last` remembers    *)
 (* the operation that produced the current state and its result.           *)
@@ -28,8 +31,14 @@ CONSTANTS Sizes,          \* numbers of participants of the created groups (ids 
 
 MCRoles == {[k |-> "Leader", p |-> LeaderFlags], [k |-> "Member", p |-> MemberFlags], [k |-> "Observer", p |-> {}]}
 MaxSize == CHOOSE m \in Sizes : \A k \in Sizes : k <= m
+(* the methods address participants by id only and the ids are interchangeable: one representative per multiset of
+   (role, status) pairs - the sequence sorted by Rank - stands for all its permutations *)
+Rank(x) == (CASE x.role.k = "Leader" -> 0 [] x.role.k = "Member" -> 10 [] OTHER -> 20)
+           + (CASE x.st = "Active" -> 0 [] x.st = "Inactive" -> 1 [] x.st = "Suspended" -> 2 [] x.st = "PendingRemoval" -> 3 [] OTHER -> 4)
 PartSeqs(m) == {[i \in 1..m |-> [id |-> i, role |-> f[i].role, st |-> f[i].st]] :
-                  f \in {g \in [1..m -> [role : MCRoles, st : InitStatuses]] : Cardinality({i \in 1..m : g[i].st # "Active"}) <= MaxInitIdle}}
+                  f \in {g \in [1..m -> [role : MCRoles, st : InitStatuses]] :
+                           /\ Cardinality({i \in 1..m : g[i].st # "Active"}) <= MaxInitIdle
+                           /\ \A i \in 1..(m - 1) : Rank(g[i]) <= Rank(g[i + 1])}}
 Configs == UNION {{[t |-> t, parts |-> ps, parent |-> 0, name |-> "g"] : t \in 0..(m + 1), ps \in PartSeqs(m)} : m \in Sizes}
 Blank == [n |-> 0, t |-> 0, act |-> <<>>, pend |-> <<>>, ver |-> 0, audit |-> <<>>, parent |-> 0, name |-> ""]
 
